@@ -70,7 +70,24 @@ impl Engine for Bep42 {
                     ];
                     ops.push(format!("fromip {}", hex(&o)));
                 }
-                5..=6 => ops.push(format!("fromip {}", hex(&rng.bytes(16)))),
+                5 => ops.push(format!("fromip {}", hex(&rng.bytes(16)))),
+                6 => {
+                    // structured IPv6 addresses: IPv4-mapped and IPv4-compatible ones, zero /64
+                    // prefixes, loopback / unspecified, documentation and link-local prefixes
+                    let low = rng.bytes(8);
+                    let v4 = rng.bytes(4);
+                    let mut o = vec![0u8; 16];
+                    match rng.below(7) {
+                        0 => { o[10] = 0xff; o[11] = 0xff; o[12..].copy_from_slice(&v4); }
+                        1 => { o[12..].copy_from_slice(&v4); }
+                        2 => { o[8..].copy_from_slice(&low); }
+                        3 => { o[15] = rng.below(2) as u8; }
+                        4 => { o[0] = 0x20; o[1] = 0x01; o[2] = 0x0d; o[3] = 0xb8; o[8..].copy_from_slice(&low); }
+                        5 => { o[0] = 0xfe; o[1] = 0x80; o[8..].copy_from_slice(&low); }
+                        _ => { o[0] = 0x00; o[1] = 0x64; o[2] = 0xff; o[3] = 0x9b; o[12..].copy_from_slice(&v4); }
+                    }
+                    ops.push(format!("fromip {}", hex(&o)));
+                }
                 7 => {
                     // validator cross-check on a fresh or damaged id
                     let o = if rng.chance(1, 2) { rng.bytes(4) } else { rng.bytes(16) };
